@@ -6,6 +6,7 @@ var worldComponents = []string{
 	"real: net/http client transports and servers over the simulated network (simnet byte pipes)",
 	"model: identity provider / directory (Okta and Google wire shapes), upstream backends, browsers with RFC 6265-style cookie jars, attacker",
 	"stub: TLS (X-Forwarded-Proto), statsd socket (in-memory sink), logging (discarded)",
+	"instrumented: the request-handling sources of both services are compiled through the yieldgen overlay (a scheduling point before every statement, used for statement-level pre-emption faults; sync.Pool replaced by a deterministic stack emptied before each run); behaviour is otherwise the sources'",
 }
 
 var schedComponents = []string{
